@@ -23,16 +23,16 @@ theorem wire_two (p1 p2 : Ser.Packet) (m1 m2 : Msg) : wire [(p1, m1), (p2, m2)] 
     '/'; when the application accepts it, the response delivered to the client raises exactly
     "connection accepted" and makes the client announce its window and chunk size; delivered to the
     server those raise nothing; and the two are in step again, both connected. -/
-theorem connect_phase {c c1 : Cli.State} {v : Srv.State} {now : Nat} {app : Bytes} {r1 : Cli.Res}
+theorem connect_phase {c c1 : Cli.State} {v : Srv.State} {n1 n2 n3 n4 n5 : Nat} {app : Bytes} {r1 : Cli.Res}
     (hin : InStep c v) (hw : CfgWF c.cfg) (hok : CfgOK c.cfg) (happ : Utf8.valid app = true)
     (htxn : c.nextTxn < 4294967296) (hfms : Utf8.valid v.fmsVersion = true)
-    (h1 : Cli.requestConnection c now app = (c1, .ok r1)) :
+    (h1 : Cli.requestConnection c n1 app = (c1, .ok r1)) :
     ∃ p1 v1, r1 = .out p1 ∧
-      SrvPart.drain v now p1.bytes = (v1, .ok [.ev (.connectionRequested v.nextReq (trimApp app))]) ∧
-      ∀ v2 rs2, Srv.acceptRequest v1 now v.nextReq = (v2, .ok rs2) →
+      SrvPart.drain v n2 p1.bytes = (v1, .ok [.ev (.connectionRequested v.nextReq (trimApp app))]) ∧
+      ∀ v2 rs2, Srv.acceptRequest v1 n3 v.nextReq = (v2, .ok rs2) →
         ∃ p2 c2 pa pb v3, rs2 = [.out p2] ∧
-          CliPart.drain c1 now p2.bytes = (c2, .ok [.out pa, .ev .connectionAccepted, .out pb]) ∧
-          SrvPart.drain v2 now (pa.bytes ++ pb.bytes) = (v3, .ok []) ∧
+          CliPart.drain c1 n4 p2.bytes = (c2, .ok [.out pa, .ev .connectionAccepted, .out pb]) ∧
+          SrvPart.drain v2 n5 (pa.bytes ++ pb.bytes) = (v3, .ok []) ∧
           InStep c2 v3 ∧
           c2 = { c with nextTxn := c.nextTxn + 1, txns := c2.txns, st := .connected, app := some app,
                         ser := c2.ser, des := c2.des } ∧
@@ -41,9 +41,9 @@ theorem connect_phase {c c1 : Cli.State} {v : Srv.State} {now : Nat} {app : Byte
   -- hop 1: the request
   obtain ⟨p1, body1, hr1, hst, hp1, he1, hc1⟩ := requestConnection_ok h1
   have hwf1 := connectCmd_wf c app hw happ htxn
-  have hstep1 : SrvSteps.steps v now (msgs [(p1, ({ ts := epoch now, typ := 20, msid := 0, data := body1 } : Msg))]) = _ :=
-    srv_steps_one v _ now _ _ (by rw [srv_stepMsg_of hwf1 hp1]; exact srv_connect v now _ c app)
-  obtain ⟨core1, hd1, hl1⟩ := srv_recv now hin.cs he1 hstep1
+  have hstep1 : SrvSteps.steps v n2 (msgs [(p1, ({ ts := epoch n1, typ := 20, msid := 0, data := body1 } : Msg))]) = _ :=
+    srv_steps_one v _ n2 _ _ (by rw [srv_stepMsg_of hwf1 hp1]; exact srv_connect v n2 _ c app)
+  obtain ⟨core1, hd1, hl1⟩ := srv_recv n2 hin.cs he1 hstep1
   rw [wire_one] at hd1
   refine ⟨p1, _, hr1, hd1, ?_⟩
   intro v2 rs2 hacc
@@ -65,20 +65,20 @@ theorem connect_phase {c c1 : Cli.State} {v : Srv.State} {now : Nat} {app : Byte
     rw [hc1]; simp [mapInsert, mapGet]
   have hc1cfg : c1.cfg = c.cfg := by rw [hc1]
   have hpos1 : 1 ≤ c1.ser.maxCs := Safe.emits_cs_pos he1 (linked_pos hin.cs)
-  obtain ⟨c2, pa, pb, hhm, hemc, hc2⟩ := cli_connectResult c1 now
-    { ts := epoch now, typ := 20, msid := 0, data := body2 } _ app (trimApp app) c.nextTxn htxn hc1txn
+  obtain ⟨c2, pa, pb, hhm, hemc, hc2⟩ := cli_connectResult c1 n4
+    { ts := epoch n3, typ := 20, msid := 0, data := body2 } _ app (trimApp app) c.nextTxn htxn hc1txn
     (by rw [hc1cfg]; exact hok) hpos1
   have hsc1 : Linked v.ser c1.des := by rw [hc1]; exact hin.sc
-  have hstep3 : CliSteps.steps c1 now (msgs [(p2, ({ ts := epoch now, typ := 20, msid := 0, data := body2 } : Msg))]) = _ :=
-    cli_steps_one c1 _ now _ _ (by rw [cli_stepMsg_of hwf2 hp2, hhm])
-  obtain ⟨core3, hd3, hl3⟩ := cli_recv now hsc1 he2 hstep3
+  have hstep3 : CliSteps.steps c1 n4 (msgs [(p2, ({ ts := epoch n3, typ := 20, msid := 0, data := body2 } : Msg))]) = _ :=
+    cli_steps_one c1 _ n4 _ _ (by rw [cli_stepMsg_of hwf2 hp2, hhm])
+  obtain ⟨core3, hd3, hl3⟩ := cli_recv n4 hsc1 he2 hstep3
   rw [wire_one] at hd3
   -- hop 4: the server takes the announcements
   have hlcs : Linked c1.ser v2.des := by rw [hv2]; exact hl1
-  obtain ⟨d4, hstep4⟩ := srv_steps_announce v2 now c.cfg.windowAckSize c.cfg.chunkSize (epoch now) 0
+  obtain ⟨d4, hstep4⟩ := srv_steps_announce v2 n5 c.cfg.windowAckSize c.cfg.chunkSize (epoch n4) 0
     (by have := hok.win; exact this) hok.cs
   rw [hc1cfg] at hemc
-  obtain ⟨core4, hd4, hl4⟩ := srv_recv now hlcs hemc hstep4
+  obtain ⟨core4, hd4, hl4⟩ := srv_recv n5 hlcs hemc hstep4
   rw [wire_two] at hd4
   refine ⟨p2, _, pa, pb, _, hrs2, hd3, hd4, ⟨hl4, ?_⟩, ?_, ?_⟩
   · exact hl3
@@ -91,18 +91,18 @@ theorem connect_phase {c c1 : Cli.State} {v : Srv.State} {now : Nat} {app : Byte
     requested key and mode; when the application accepts it, the status delivered to the client raises
     exactly "publish accepted".  Afterwards the client is publishing on the stream id the server holds as
     publishing under that key, and the two are in step — the state `C02_publish_media` starts from. -/
-theorem publish_phase {c c1 : Cli.State} {v : Srv.State} {now : Nat} {key appS : Bytes} {t : Cli.PublishType} {r1 : Cli.Res}
+theorem publish_phase {c c1 : Cli.State} {v : Srv.State} {n1 n2 n3 n4 n5 n6 : Nat} {key appS : Bytes} {t : Cli.PublishType} {r1 : Cli.Res}
     (hin : InStep c v) (htxn : c.nextTxn < 4294967296) (hns : v.nextStream < 4294967296)
     (hkey : Utf8.valid key = true) (hkl : key.length ≤ 65535)
     (hvc : v.connected = true) (hva : v.app = some appS)
-    (h1 : Cli.requestStream c now (.publish key t) = (c1, .ok r1)) :
+    (h1 : Cli.requestStream c n1 (.publish key t) = (c1, .ok r1)) :
     ∃ p1 v1 p2 c2 p3 v2, r1 = .out p1 ∧
-      SrvPart.drain v now p1.bytes = (v1, .ok [.out p2]) ∧
-      CliPart.drain c1 now p2.bytes = (c2, .ok [.out p3]) ∧
-      SrvPart.drain v1 now p3.bytes = (v2, .ok [.ev (.publishRequested v.nextReq appS key (modeOf t))]) ∧
-      ∀ v3 rs3, Srv.acceptRequest v2 now v.nextReq = (v3, .ok rs3) →
+      SrvPart.drain v n2 p1.bytes = (v1, .ok [.out p2]) ∧
+      CliPart.drain c1 n3 p2.bytes = (c2, .ok [.out p3]) ∧
+      SrvPart.drain v1 n4 p3.bytes = (v2, .ok [.ev (.publishRequested v.nextReq appS key (modeOf t))]) ∧
+      ∀ v3 rs3, Srv.acceptRequest v2 n5 v.nextReq = (v3, .ok rs3) →
         ∃ p4 p5 c3, rs3 = [.out p4, .out p5] ∧
-          CliPart.drain c2 now (p4.bytes ++ p5.bytes) = (c3, .ok [.ev .publishAccepted]) ∧
+          CliPart.drain c2 n6 (p4.bytes ++ p5.bytes) = (c3, .ok [.ev .publishAccepted]) ∧
           InStep c3 v3 ∧
           c3 = { c with nextTxn := c.nextTxn + 1, txns := c3.txns, st := .publishing, activeStream := some v.nextStream,
                         ser := c3.ser, des := c3.des } ∧
@@ -112,32 +112,32 @@ theorem publish_phase {c c1 : Cli.State} {v : Srv.State} {now : Nat} {key appS :
   -- hop 1: createStream request
   obtain ⟨p1, body1, hr1, hst, hp1, he1, hc1⟩ := requestStream_ok h1
   have hwf1 := createStreamCmd_wf c htxn
-  obtain ⟨v1', p2, body2, hhm1, hp2, he2, hv1⟩ := srv_createStream v now
-    { ts := epoch now, typ := 20, msid := 0, data := body1 } c (linked_pos hin.sc)
-  have hstep1 : SrvSteps.steps v now (msgs [(p1, ({ ts := epoch now, typ := 20, msid := 0, data := body1 } : Msg))]) = _ :=
-    srv_steps_one v _ now _ _ (by rw [srv_stepMsg_of hwf1 hp1]; exact hhm1)
-  obtain ⟨core1, hd1, hl1⟩ := srv_recv now hin.cs he1 hstep1
+  obtain ⟨v1', p2, body2, hhm1, hp2, he2, hv1⟩ := srv_createStream v n2
+    { ts := epoch n1, typ := 20, msid := 0, data := body1 } c (linked_pos hin.sc)
+  have hstep1 : SrvSteps.steps v n2 (msgs [(p1, ({ ts := epoch n1, typ := 20, msid := 0, data := body1 } : Msg))]) = _ :=
+    srv_steps_one v _ n2 _ _ (by rw [srv_stepMsg_of hwf1 hp1]; exact hhm1)
+  obtain ⟨core1, hd1, hl1⟩ := srv_recv n2 hin.cs he1 hstep1
   rw [wire_one] at hd1
   -- hop 2: the client takes the stream id and sends publish
   have hwf2 := createStreamResult_wf (F64.ofU32 c.nextTxn) v.nextStream (F64.ofU32_lt _ htxn) hns
   have hc1txn : mapGet c.nextTxn c1.txns = some (.createStream (.publish key t)) := by
     rw [hc1]; simp [mapInsert, mapGet]
   have hpos1 : 1 ≤ c1.ser.maxCs := Safe.emits_cs_pos he1 (linked_pos hin.cs)
-  obtain ⟨c2, p3, body3, hhm2, hp3, he3, hc2⟩ := cli_createStreamResult_publish c1 now
-    { ts := epoch now, typ := 20, msid := 0, data := body2 } c.nextTxn v.nextStream key t htxn hns hc1txn hkl hpos1
+  obtain ⟨c2, p3, body3, hhm2, hp3, he3, hc2⟩ := cli_createStreamResult_publish c1 n3
+    { ts := epoch n2, typ := 20, msid := 0, data := body2 } c.nextTxn v.nextStream key t htxn hns hc1txn hkl hpos1
   have hsc1 : Linked v.ser c1.des := by rw [hc1]; exact hin.sc
-  have hstep2 : CliSteps.steps c1 now (msgs [(p2, ({ ts := epoch now, typ := 20, msid := 0, data := body2 } : Msg))]) = _ :=
-    cli_steps_one c1 _ now _ _ (by rw [cli_stepMsg_of hwf2 hp2, hhm2])
-  obtain ⟨core2, hd2, hl2⟩ := cli_recv now hsc1 he2 hstep2
+  have hstep2 : CliSteps.steps c1 n3 (msgs [(p2, ({ ts := epoch n2, typ := 20, msid := 0, data := body2 } : Msg))]) = _ :=
+    cli_steps_one c1 _ n3 _ _ (by rw [cli_stepMsg_of hwf2 hp2, hhm2])
+  obtain ⟨core2, hd2, hl2⟩ := cli_recv n3 hsc1 he2 hstep2
   rw [wire_one] at hd2
   -- hop 3: the server takes the publish command
   have hwf3 := publishCmd_wf key t hkey
-  have hstep3 : SrvSteps.steps ({ v1' with des := { core := core1, buf := [] } } : Srv.State) now
-      (msgs [(p3, ({ ts := epoch now, typ := 20, msid := v.nextStream, data := body3 } : Msg))]) = _ :=
-    srv_steps_one _ _ now _ _ (by
+  have hstep3 : SrvSteps.steps ({ v1' with des := { core := core1, buf := [] } } : Srv.State) n4
+      (msgs [(p3, ({ ts := epoch n3, typ := 20, msid := v.nextStream, data := body3 } : Msg))]) = _ :=
+    srv_steps_one _ _ n4 _ _ (by
       rw [srv_stepMsg_of hwf3 hp3]
-      exact srv_publish _ now _ key t appS (by rw [hv1]; exact hvc) (by rw [hv1]; exact hva))
-  obtain ⟨core3, hd3, hl3⟩ := srv_recv now (v := { v1' with des := { core := core1, buf := [] } }) hl1 he3 hstep3
+      exact srv_publish _ n4 _ key t appS (by rw [hv1]; exact hvc) (by rw [hv1]; exact hva))
+  obtain ⟨core3, hd3, hl3⟩ := srv_recv n4 (v := { v1' with des := { core := core1, buf := [] } }) hl1 he3 hstep3
   rw [wire_one] at hd3
   have hnr : ({ v1' with des := { core := core1, buf := [] } } : Srv.State).nextReq = v.nextReq := by rw [hv1]
   refine ⟨p1, _, p2, _, p3, _, hr1, hd1, hd2, (by rw [← hnr]; exact hd3), ?_⟩
@@ -147,16 +147,16 @@ theorem publish_phase {c c1 : Cli.State} {v : Srv.State} {now : Nat} {key appS :
   obtain ⟨p4, p5, b4, b5, hrs3, hp4, hp5, he4, _, hv3⟩ := acceptPublish_ok
     (key := key) (mode := modeOf t) (sid := v.nextStream) (by simp [mapInsert, mapGet]) hns hacc
   -- hop 5: the client takes the status
-  have hstepA : CliSteps.stepMsg ({ c2 with des := { core := core2, buf := [] } } : Cli.State) now
-      { ts := epoch now, typ := 4, msid := v.nextStream, data := b4 } =
+  have hstepA : CliSteps.stepMsg ({ c2 with des := { core := core2, buf := [] } } : Cli.State) n6
+      { ts := epoch n5, typ := 4, msid := v.nextStream, data := b4 } =
         .ok (({ c2 with des := { core := core2, buf := [] } } : Cli.State), []) :=
-    cli_step_streamBegin _ now v.nextStream _ _ 4 b4 hns hp4
-  have hstepB : CliSteps.stepMsg ({ c2 with des := { core := core2, buf := [] } } : Cli.State) now
-      { ts := epoch now, typ := 20, msid := v.nextStream, data := b5 } =
+    cli_step_streamBegin _ n6 v.nextStream _ _ 4 b4 hns hp4
+  have hstepB : CliSteps.stepMsg ({ c2 with des := { core := core2, buf := [] } } : Cli.State) n6
+      { ts := epoch n5, typ := 20, msid := v.nextStream, data := b5 } =
         .ok (({ c2 with des := { core := core2, buf := [] }, st := .publishing } : Cli.State), [.ev .publishAccepted]) := by
-    rw [cli_stepMsg_of (publishStatus_wf key hkey) hp5, cli_publishStatus _ now _ key (by rw [hc2])]
-  have hstep5 := cli_steps_two _ _ _ now _ _ _ _ hstepA hstepB
-  obtain ⟨core5, hd5, hl5⟩ := cli_recv now (c := { c2 with des := { core := core2, buf := [] } }) hl2 he4 hstep5
+    rw [cli_stepMsg_of (publishStatus_wf key hkey) hp5, cli_publishStatus _ n6 _ key (by rw [hc2])]
+  have hstep5 := cli_steps_two _ _ _ n6 _ _ _ _ hstepA hstepB
+  obtain ⟨core5, hd5, hl5⟩ := cli_recv n6 (c := { c2 with des := { core := core2, buf := [] } }) hl2 he4 hstep5
   rw [wire_two] at hd5
   refine ⟨p4, p5, _, hrs3, hd5, ⟨?_, hl5⟩, ?_, ?_, ?_⟩
   · rw [hv3]; exact hl3
@@ -279,22 +279,22 @@ def bytesC (rs : List Cli.Res) : Bytes := ((CliEmit.outs rs).map (·.bytes)).fla
 /-- **banner phase.**  A new server session and a new client session: once the packets the server's
     constructor returned are delivered, the two are in step; the client has adopted the server's chunk
     size and window, raised no protocol event and sent nothing. -/
-theorem banner_phase {scfg : Srv.Config} {now : Nat} {v0 : Srv.State} {rs0 : List Srv.Res} (ccfg : Cli.Config)
+theorem banner_phase {scfg : Srv.Config} {now n1 : Nat} {v0 : Srv.State} {rs0 : List Srv.Res} (ccfg : Cli.Config)
     (hnew : Srv.new scfg now = .ok (v0, rs0)) (hw : scfg.windowAckSize < 4294967296) (hbw : scfg.peerBandwidth < 4294967296) :
-    ∃ c1 b4, CliPart.drain ({ cfg := ccfg } : Cli.State) now (bytesS rs0) = (c1, .ok (bannerEvents scfg now b4)) ∧
+    ∃ c1 b4, CliPart.drain ({ cfg := ccfg } : Cli.State) n1 (bytesS rs0) = (c1, .ok (bannerEvents scfg now b4)) ∧
       InStep c1 v0 ∧
       c1 = { ({ cfg := ccfg } : Cli.State) with window := some scfg.windowAckSize, des := c1.des } ∧
       v0 = { ({ fmsVersion := scfg.fmsVersion } : Srv.State) with ser := v0.ser } := by
   obtain ⟨p1, p2, p3, p4, b3, b4, rest, restR, hrs, hcs, hp3, hp4, hem, hrest, hv0⟩ := new_ok hnew
-  have s1 := cli_step_setcs ({ cfg := ccfg } : Cli.State) now scfg.chunkSize 0 hcs
+  have s1 := cli_step_setcs ({ cfg := ccfg } : Cli.State) n1 scfg.chunkSize 0 hcs
   have hlink0 : Linked ({} : Ser.State) ({ cfg := ccfg } : Cli.State).des := linked_init
   rcases hrest with ⟨hf, hr1, hr2⟩ | ⟨ht, p5, b5, hp5, hr2, hr1⟩
   · subst hr1; subst hr2
-    have hsteps := cli_steps_cons s1 (cli_steps_cons (cli_step_windowAck _ now scfg.windowAckSize (epoch now) hw)
-      (cli_steps_cons (cli_step_streamBegin _ now 0 (epoch now) 0 4 b3 (by decide) hp3)
-        (cli_steps_one _ _ now _ _ (cli_step_peerBw _ now scfg.peerBandwidth (epoch now) 0 b4 hbw hp4))))
+    have hsteps := cli_steps_cons s1 (cli_steps_cons (cli_step_windowAck _ n1 scfg.windowAckSize (epoch now) hw)
+      (cli_steps_cons (cli_step_streamBegin _ n1 0 (epoch now) 0 4 b3 (by decide) hp3)
+        (cli_steps_one _ _ n1 _ _ (cli_step_peerBw _ n1 scfg.peerBandwidth (epoch now) 0 b4 hbw hp4))))
     simp only [List.append_nil] at hem
-    obtain ⟨core', hd, hl⟩ := cli_recv now hlink0 hem hsteps
+    obtain ⟨core', hd, hl⟩ := cli_recv n1 hlink0 hem hsteps
     refine ⟨?c1, b4, ?g1, ?g2, ?g3, hv0⟩
     case g1 =>
       have hb : bytesS rs0 = wire [(p1, ({ ts := 0, typ := 1, msid := 0, data := be32 scfg.chunkSize } : Msg)),
@@ -309,12 +309,12 @@ theorem banner_phase {scfg : Srv.Config} {now : Nat} {v0 : Srv.State} {rs0 : Lis
     case g2 => exact ⟨by rw [hv0]; exact linked_init, hl⟩
     case g3 => rfl
   · subst hr1; subst hr2
-    have hsteps := cli_steps_cons s1 (cli_steps_cons (cli_step_windowAck _ now scfg.windowAckSize (epoch now) hw)
-      (cli_steps_cons (cli_step_streamBegin _ now 0 (epoch now) 0 4 b3 (by decide) hp3)
-        (cli_steps_cons (cli_step_peerBw _ now scfg.peerBandwidth (epoch now) 0 b4 hbw hp4)
-          (cli_steps_one _ _ now _ _ (cli_step_onBwDone _ now (epoch now) 0 b5 hp5)))))
+    have hsteps := cli_steps_cons s1 (cli_steps_cons (cli_step_windowAck _ n1 scfg.windowAckSize (epoch now) hw)
+      (cli_steps_cons (cli_step_streamBegin _ n1 0 (epoch now) 0 4 b3 (by decide) hp3)
+        (cli_steps_cons (cli_step_peerBw _ n1 scfg.peerBandwidth (epoch now) 0 b4 hbw hp4)
+          (cli_steps_one _ _ n1 _ _ (cli_step_onBwDone _ n1 (epoch now) 0 b5 hp5)))))
     simp only [List.cons_append, List.nil_append] at hem
-    obtain ⟨core', hd, hl⟩ := cli_recv now hlink0 hem hsteps
+    obtain ⟨core', hd, hl⟩ := cli_recv n1 hlink0 hem hsteps
     refine ⟨?c1', b4, ?g1', ?g2', ?g3', hv0⟩
     case g1' =>
       have hb : bytesS rs0 = wire [(p1, ({ ts := 0, typ := 1, msid := 0, data := be32 scfg.chunkSize } : Msg)),
@@ -353,31 +353,32 @@ structure PublishReady (c : Cli.State) (v : Srv.State) (sid : Nat) (app key : By
     accepts) and a new server session (any configuration `ServerSession::new` accepts).  The application
     code on each side does what the API asks: forwards returned packets to the peer, accepts the
     requests it is shown, and calls `request_connection` then `request_publishing`.  Whatever those
-    four application calls return when they return Ok, every `handle_input` in between succeeds and
+    four application calls return when they return Ok (each call of the scenario reads the clock
+    anew: `clk i`, arbitrary), every `handle_input` in between succeeds and
     returns exactly the results listed — the server is shown exactly one connection request (for the
     application name minus one trailing '/') and exactly one publish request (that application, the
     requested key and mode), the client exactly "connection accepted" then "publish accepted" — and the
     pair ends `PublishReady` on stream 1. -/
-theorem publish_workflow (ccfg : Cli.Config) (scfg : Srv.Config) (now : Nat) (app key : Bytes) (t : Cli.PublishType)
+theorem publish_workflow (ccfg : Cli.Config) (scfg : Srv.Config) (clk : Nat → Nat) (app key : Bytes) (t : Cli.PublishType)
     (hcw : CfgWF ccfg) (hco : CfgOK ccfg) (hsw : SCfgWF scfg)
     (happ : Utf8.valid app = true) (hkey : Utf8.valid key = true) (hkl : key.length ≤ 65535)
-    {v0 : Srv.State} {rs0 : List Srv.Res} (hnew : Srv.new scfg now = .ok (v0, rs0)) :
-    ∃ c1 b4, CliPart.drain ({ cfg := ccfg } : Cli.State) now (bytesS rs0) = (c1, .ok (bannerEvents scfg now b4)) ∧
-    ∀ c2 r1, Cli.requestConnection c1 now app = (c2, .ok r1) →
+    {v0 : Srv.State} {rs0 : List Srv.Res} (hnew : Srv.new scfg (clk 0) = .ok (v0, rs0)) :
+    ∃ c1 b4, CliPart.drain ({ cfg := ccfg } : Cli.State) (clk 1) (bytesS rs0) = (c1, .ok (bannerEvents scfg (clk 0) b4)) ∧
+    ∀ c2 r1, Cli.requestConnection c1 (clk 2) app = (c2, .ok r1) →
     ∃ p1 v1, r1 = .out p1 ∧
-      SrvPart.drain v0 now p1.bytes = (v1, .ok [.ev (.connectionRequested 0 (trimApp app))]) ∧
-    ∀ v2 rs2, Srv.acceptRequest v1 now 0 = (v2, .ok rs2) →
+      SrvPart.drain v0 (clk 3) p1.bytes = (v1, .ok [.ev (.connectionRequested 0 (trimApp app))]) ∧
+    ∀ v2 rs2, Srv.acceptRequest v1 (clk 4) 0 = (v2, .ok rs2) →
     ∃ p2 c3 pa pb v3, rs2 = [.out p2] ∧
-      CliPart.drain c2 now p2.bytes = (c3, .ok [.out pa, .ev .connectionAccepted, .out pb]) ∧
-      SrvPart.drain v2 now (pa.bytes ++ pb.bytes) = (v3, .ok []) ∧
-    ∀ c4 r3, Cli.requestStream c3 now (.publish key t) = (c4, .ok r3) →
+      CliPart.drain c2 (clk 5) p2.bytes = (c3, .ok [.out pa, .ev .connectionAccepted, .out pb]) ∧
+      SrvPart.drain v2 (clk 6) (pa.bytes ++ pb.bytes) = (v3, .ok []) ∧
+    ∀ c4 r3, Cli.requestStream c3 (clk 7) (.publish key t) = (c4, .ok r3) →
     ∃ p3 v4 p4 c5 p5 v5, r3 = .out p3 ∧
-      SrvPart.drain v3 now p3.bytes = (v4, .ok [.out p4]) ∧
-      CliPart.drain c4 now p4.bytes = (c5, .ok [.out p5]) ∧
-      SrvPart.drain v4 now p5.bytes = (v5, .ok [.ev (.publishRequested 1 (trimApp app) key (modeOf t))]) ∧
-    ∀ v6 rs6, Srv.acceptRequest v5 now 1 = (v6, .ok rs6) →
+      SrvPart.drain v3 (clk 8) p3.bytes = (v4, .ok [.out p4]) ∧
+      CliPart.drain c4 (clk 9) p4.bytes = (c5, .ok [.out p5]) ∧
+      SrvPart.drain v4 (clk 10) p5.bytes = (v5, .ok [.ev (.publishRequested 1 (trimApp app) key (modeOf t))]) ∧
+    ∀ v6 rs6, Srv.acceptRequest v5 (clk 11) 1 = (v6, .ok rs6) →
     ∃ p6 p7 c6, rs6 = [.out p6, .out p7] ∧
-      CliPart.drain c5 now (p6.bytes ++ p7.bytes) = (c6, .ok [.ev .publishAccepted]) ∧
+      CliPart.drain c5 (clk 12) (p6.bytes ++ p7.bytes) = (c6, .ok [.ev .publishAccepted]) ∧
       PublishReady c6 v6 1 (trimApp app) key (modeOf t) := by
   obtain ⟨c1, b4, hd0, hin1, hc1, hv0⟩ := banner_phase ccfg hnew hsw.win hsw.bw
   refine ⟨c1, b4, hd0, ?_⟩
@@ -456,16 +457,16 @@ theorem publish_items {c c' : Cli.State} {v : Srv.State} {sid : Nat} {app key : 
 /-- **stop on a publishing pair**: `stop_publishing` returns one packet; delivered, the server raises
     exactly "publish finished" for the application and key, and forgets the stream -/
 theorem stop_publishing {c c1 : Cli.State} {v : Srv.State} {sid : Nat} {app key : Bytes} {mode : Srv.PublishMode}
-    {now : Nat} {rs : List Cli.Res}
-    (hr : PublishReady c v sid app key mode) (h : Cli.stop c now false = (c1, .ok rs)) :
-    ∃ p v1, rs = [.out p] ∧ SrvPart.drain v now p.bytes = (v1, .ok [.ev (.publishFinished app key)]) ∧
+    {n1 n2 : Nat} {rs : List Cli.Res}
+    (hr : PublishReady c v sid app key mode) (h : Cli.stop c n1 false = (c1, .ok rs)) :
+    ∃ p v1, rs = [.out p] ∧ SrvPart.drain v n2 p.bytes = (v1, .ok [.ev (.publishFinished app key)]) ∧
       InStep c1 v1 ∧ c1.st = .connected ∧ c1.activeStream = none ∧ mapGet sid v1.streams = none := by
   obtain ⟨p, body, hrs, hp, he, hc1⟩ := stop_ok (play := false) (by simp [hr.cst]) hr.cact hr.sid32 h
-  have hstep : SrvSteps.steps v now (msgs [(p, ({ ts := epoch now, typ := 20, msid := sid, data := body } : Msg))]) = _ :=
-    srv_steps_one v _ now _ _ (by
+  have hstep : SrvSteps.steps v n2 (msgs [(p, ({ ts := epoch n1, typ := 20, msid := sid, data := body } : Msg))]) = _ :=
+    srv_steps_one v _ n2 _ _ (by
       rw [srv_stepMsg_of (deleteStreamCmd_wf sid hr.sid32) hp]
-      exact srv_deleteStream v now _ sid app _ hr.sid32 hr.vconn hr.vapp hr.vstream)
-  obtain ⟨core1, hd, hl⟩ := srv_recv now hr.inStep.cs he hstep
+      exact srv_deleteStream v n2 _ sid app _ hr.sid32 hr.vconn hr.vapp hr.vstream)
+  obtain ⟨core1, hd, hl⟩ := srv_recv n2 hr.inStep.cs he hstep
   rw [wire_one] at hd
   refine ⟨p, _, hrs, hd, ⟨hl, ?_⟩, by rw [hc1], by rw [hc1], ?_⟩
   · rw [hc1]; exact hr.inStep.sc
@@ -484,18 +485,18 @@ theorem srv_steps_cons {v v1 v2 : Srv.State} {now : Nat} {m : Msg} {ms : List Ms
     key); when the application accepts it, the five messages delivered to the client raise the reset
     notice (as an unhandled status) and exactly "playback accepted".  Afterwards the client is playing
     the stream id the server holds as playing that key, in step — the state `C02_play_media` starts from. -/
-theorem play_phase {c c1 : Cli.State} {v : Srv.State} {now : Nat} {key appS : Bytes} {r1 : Cli.Res}
+theorem play_phase {c c1 : Cli.State} {v : Srv.State} {n1 n2 n3 n4 n5 n6 : Nat} {key appS : Bytes} {r1 : Cli.Res}
     (hin : InStep c v) (htxn : c.nextTxn < 4294967296) (hns : v.nextStream < 4294967296)
     (hkey : Utf8.valid key = true) (hkl : key.length ≤ 65535) (hbuf : c.cfg.bufferLengthMs < 4294967296)
     (hvc : v.connected = true) (hva : v.app = some appS)
-    (h1 : Cli.requestStream c now (.play key) = (c1, .ok r1)) :
+    (h1 : Cli.requestStream c n1 (.play key) = (c1, .ok r1)) :
     ∃ p1 v1 p2 c2 pa pb v2, r1 = .out p1 ∧
-      SrvPart.drain v now p1.bytes = (v1, .ok [.out p2]) ∧
-      CliPart.drain c1 now p2.bytes = (c2, .ok [.out pa, .out pb]) ∧
-      SrvPart.drain v1 now (pa.bytes ++ pb.bytes) =
+      SrvPart.drain v n2 p1.bytes = (v1, .ok [.out p2]) ∧
+      CliPart.drain c1 n3 p2.bytes = (c2, .ok [.out pa, .out pb]) ∧
+      SrvPart.drain v1 n4 (pa.bytes ++ pb.bytes) =
         (v2, .ok [.ev (.playRequested v.nextReq appS key .liveOrRecorded none false v.nextStream)]) ∧
-      ∀ v3 rs3, Srv.acceptRequest v2 now v.nextReq = (v3, .ok rs3) →
-        ∃ c3, CliPart.drain c2 now (bytesS rs3) =
+      ∀ v3 rs3, Srv.acceptRequest v2 n5 v.nextReq = (v3, .ok rs3) →
+        ∃ c3, CliPart.drain c2 n6 (bytesS rs3) =
             (c3, .ok [.ev (.unhandleableOnStatus (str "NetStream.Play.Reset")), .ev .playbackAccepted]) ∧
           (SrvEmit.outs rs3).length = 5 ∧
           InStep c3 v3 ∧
@@ -507,11 +508,11 @@ theorem play_phase {c c1 : Cli.State} {v : Srv.State} {now : Nat} {key appS : By
   -- hop 1: createStream request
   obtain ⟨p1, body1, hr1, hst, hp1, he1, hc1⟩ := requestStream_ok h1
   have hwf1 := createStreamCmd_wf c htxn
-  obtain ⟨v1', p2, body2, hhm1, hp2, he2, hv1⟩ := srv_createStream v now
-    { ts := epoch now, typ := 20, msid := 0, data := body1 } c (linked_pos hin.sc)
-  have hstep1 : SrvSteps.steps v now (msgs [(p1, ({ ts := epoch now, typ := 20, msid := 0, data := body1 } : Msg))]) = _ :=
-    srv_steps_one v _ now _ _ (by rw [srv_stepMsg_of hwf1 hp1]; exact hhm1)
-  obtain ⟨core1, hd1, hl1⟩ := srv_recv now hin.cs he1 hstep1
+  obtain ⟨v1', p2, body2, hhm1, hp2, he2, hv1⟩ := srv_createStream v n2
+    { ts := epoch n1, typ := 20, msid := 0, data := body1 } c (linked_pos hin.sc)
+  have hstep1 : SrvSteps.steps v n2 (msgs [(p1, ({ ts := epoch n1, typ := 20, msid := 0, data := body1 } : Msg))]) = _ :=
+    srv_steps_one v _ n2 _ _ (by rw [srv_stepMsg_of hwf1 hp1]; exact hhm1)
+  obtain ⟨core1, hd1, hl1⟩ := srv_recv n2 hin.cs he1 hstep1
   rw [wire_one] at hd1
   -- hop 2: the client takes the stream id and sends buffer length and play
   have hwf2 := createStreamResult_wf (F64.ofU32 c.nextTxn) v.nextStream (F64.ofU32_lt _ htxn) hns
@@ -519,22 +520,22 @@ theorem play_phase {c c1 : Cli.State} {v : Srv.State} {now : Nat} {key appS : By
     rw [hc1]; simp [mapInsert, mapGet]
   have hc1cfg : c1.cfg = c.cfg := by rw [hc1]
   have hpos1 : 1 ≤ c1.ser.maxCs := Safe.emits_cs_pos he1 (linked_pos hin.cs)
-  obtain ⟨c2, pa, pb, ba, bb, hhm2, hpa, hpb, he3, hc2⟩ := cli_createStreamResult_play c1 now
-    { ts := epoch now, typ := 20, msid := 0, data := body2 } c.nextTxn v.nextStream key htxn hns hc1txn hkl hpos1
+  obtain ⟨c2, pa, pb, ba, bb, hhm2, hpa, hpb, he3, hc2⟩ := cli_createStreamResult_play c1 n3
+    { ts := epoch n2, typ := 20, msid := 0, data := body2 } c.nextTxn v.nextStream key htxn hns hc1txn hkl hpos1
   rw [hc1cfg] at hpa
   have hsc1 : Linked v.ser c1.des := by rw [hc1]; exact hin.sc
-  have hstep2 : CliSteps.steps c1 now (msgs [(p2, ({ ts := epoch now, typ := 20, msid := 0, data := body2 } : Msg))]) = _ :=
-    cli_steps_one c1 _ now _ _ (by rw [cli_stepMsg_of hwf2 hp2, hhm2])
-  obtain ⟨core2, hd2, hl2⟩ := cli_recv now hsc1 he2 hstep2
+  have hstep2 : CliSteps.steps c1 n3 (msgs [(p2, ({ ts := epoch n2, typ := 20, msid := 0, data := body2 } : Msg))]) = _ :=
+    cli_steps_one c1 _ n3 _ _ (by rw [cli_stepMsg_of hwf2 hp2, hhm2])
+  obtain ⟨core2, hd2, hl2⟩ := cli_recv n3 hsc1 he2 hstep2
   rw [wire_one] at hd2
   -- hop 3: the server takes both
   have hstep3 := srv_steps_cons
-    (srv_step_setBufLen ({ v1' with des := { core := core1, buf := [] } } : Srv.State) now v.nextStream
-      c.cfg.bufferLengthMs (epoch now) 0 ba hns hbuf hpa)
-    (srv_steps_one _ _ now { ts := epoch now, typ := 20, msid := v.nextStream, data := bb } _ (by
+    (srv_step_setBufLen ({ v1' with des := { core := core1, buf := [] } } : Srv.State) n4 v.nextStream
+      c.cfg.bufferLengthMs (epoch n3) 0 ba hns hbuf hpa)
+    (srv_steps_one _ _ n4 { ts := epoch n3, typ := 20, msid := v.nextStream, data := bb } _ (by
       rw [srv_stepMsg_of (playCmd_wf key hkey) hpb]
-      exact srv_play _ now _ key appS (by rw [hv1]; exact hvc) (by rw [hv1]; exact hva)))
-  obtain ⟨core3, hd3, hl3⟩ := srv_recv now (v := { v1' with des := { core := core1, buf := [] } }) hl1 he3 hstep3
+      exact srv_play _ n4 _ key appS (by rw [hv1]; exact hvc) (by rw [hv1]; exact hva)))
+  obtain ⟨core3, hd3, hl3⟩ := srv_recv n4 (v := { v1' with des := { core := core1, buf := [] } }) hl1 he3 hstep3
   rw [wire_two] at hd3
   have hnr : ({ v1' with des := { core := core1, buf := [] } } : Srv.State).nextReq = v.nextReq := by rw [hv1]
   simp only [List.nil_append] at hd3
@@ -548,21 +549,21 @@ theorem play_phase {c c1 : Cli.State} {v : Srv.State} {now : Nat} {key appS : By
   have hc2st : c2.st = .playRequested := by rw [hc2]
   have hstep5 := cli_steps_cons
     (c := ({ c2 with des := { core := core2, buf := [] } } : Cli.State))
-    (m := { ts := epoch now, typ := 20, msid := v.nextStream, data := b1 })
+    (m := { ts := epoch n5, typ := 20, msid := v.nextStream, data := b1 })
     (by rw [cli_stepMsg_of playReset_wf hq1, cli_playReset])
-    (cli_steps_cons (cli_step_streamBegin _ now v.nextStream (epoch now) v.nextStream 4 b2 hns hq2)
-      (cli_steps_cons (m := { ts := epoch now, typ := 20, msid := v.nextStream, data := b3 })
-        (by rw [cli_stepMsg_of (playStart_wf key hkey) hq3, cli_playStart _ now _ key (by exact hc2st)])
-        (cli_steps_cons (m := { ts := epoch now, typ := 18, msid := v.nextStream, data := b4 })
+    (cli_steps_cons (cli_step_streamBegin _ n6 v.nextStream (epoch n5) v.nextStream 4 b2 hns hq2)
+      (cli_steps_cons (m := { ts := epoch n5, typ := 20, msid := v.nextStream, data := b3 })
+        (by rw [cli_stepMsg_of (playStart_wf key hkey) hq3, cli_playStart _ n6 _ key (by exact hc2st)])
+        (cli_steps_cons (m := { ts := epoch n5, typ := 18, msid := v.nextStream, data := b4 })
           (by rw [cli_stepMsg_of sampleAccess_wf hq4, cli_sampleAccess])
-          (cli_steps_one _ _ now { ts := epoch now, typ := 18, msid := v.nextStream, data := b5 } _
+          (cli_steps_one _ _ n6 { ts := epoch n5, typ := 18, msid := v.nextStream, data := b5 } _
             (by rw [cli_stepMsg_of dataStart_wf hq5, cli_dataStart])))))
-  obtain ⟨core5, hd5, hl5⟩ := cli_recv now (c := { c2 with des := { core := core2, buf := [] } }) hl2 he4 hstep5
-  have hb : bytesS rs3 = wire [(q1, ({ ts := epoch now, typ := 20, msid := v.nextStream, data := b1 } : Msg)),
-      (q2, { ts := epoch now, typ := 4, msid := v.nextStream, data := b2 }),
-      (q3, { ts := epoch now, typ := 20, msid := v.nextStream, data := b3 }),
-      (q4, { ts := epoch now, typ := 18, msid := v.nextStream, data := b4 }),
-      (q5, { ts := epoch now, typ := 18, msid := v.nextStream, data := b5 })] := by
+  obtain ⟨core5, hd5, hl5⟩ := cli_recv n6 (c := { c2 with des := { core := core2, buf := [] } }) hl2 he4 hstep5
+  have hb : bytesS rs3 = wire [(q1, ({ ts := epoch n5, typ := 20, msid := v.nextStream, data := b1 } : Msg)),
+      (q2, { ts := epoch n5, typ := 4, msid := v.nextStream, data := b2 }),
+      (q3, { ts := epoch n5, typ := 20, msid := v.nextStream, data := b3 }),
+      (q4, { ts := epoch n5, typ := 18, msid := v.nextStream, data := b4 }),
+      (q5, { ts := epoch n5, typ := 18, msid := v.nextStream, data := b5 })] := by
     rw [hrs3]; simp [bytesS, SrvEmit.outs, wire]
   simp only [List.nil_append, List.cons_append, List.append_nil] at hd5
   refine ⟨_, (by rw [hb]; exact hd5), by rw [hrs3]; simp [SrvEmit.outs], ⟨?_, hl5⟩, ?_, ?_, ?_⟩
@@ -585,26 +586,26 @@ structure PlayReady (c : Cli.State) (v : Srv.State) (sid : Nat) (app key : Bytes
     one connection request and exactly one play request (connected application, requested key, stream
     1, default start/duration/reset), the client exactly "connection accepted", then the reset notice
     and "playback accepted", and the pair ends `PlayReady` on stream 1. -/
-theorem play_workflow (ccfg : Cli.Config) (scfg : Srv.Config) (now : Nat) (app key : Bytes)
+theorem play_workflow (ccfg : Cli.Config) (scfg : Srv.Config) (clk : Nat → Nat) (app key : Bytes)
     (hcw : CfgWF ccfg) (hco : CfgOK ccfg) (hbuf : ccfg.bufferLengthMs < 4294967296) (hsw : SCfgWF scfg)
     (happ : Utf8.valid app = true) (hkey : Utf8.valid key = true) (hkl : key.length ≤ 65535)
-    {v0 : Srv.State} {rs0 : List Srv.Res} (hnew : Srv.new scfg now = .ok (v0, rs0)) :
-    ∃ c1 b4, CliPart.drain ({ cfg := ccfg } : Cli.State) now (bytesS rs0) = (c1, .ok (bannerEvents scfg now b4)) ∧
-    ∀ c2 r1, Cli.requestConnection c1 now app = (c2, .ok r1) →
+    {v0 : Srv.State} {rs0 : List Srv.Res} (hnew : Srv.new scfg (clk 0) = .ok (v0, rs0)) :
+    ∃ c1 b4, CliPart.drain ({ cfg := ccfg } : Cli.State) (clk 1) (bytesS rs0) = (c1, .ok (bannerEvents scfg (clk 0) b4)) ∧
+    ∀ c2 r1, Cli.requestConnection c1 (clk 2) app = (c2, .ok r1) →
     ∃ p1 v1, r1 = .out p1 ∧
-      SrvPart.drain v0 now p1.bytes = (v1, .ok [.ev (.connectionRequested 0 (trimApp app))]) ∧
-    ∀ v2 rs2, Srv.acceptRequest v1 now 0 = (v2, .ok rs2) →
+      SrvPart.drain v0 (clk 3) p1.bytes = (v1, .ok [.ev (.connectionRequested 0 (trimApp app))]) ∧
+    ∀ v2 rs2, Srv.acceptRequest v1 (clk 4) 0 = (v2, .ok rs2) →
     ∃ p2 c3 pa pb v3, rs2 = [.out p2] ∧
-      CliPart.drain c2 now p2.bytes = (c3, .ok [.out pa, .ev .connectionAccepted, .out pb]) ∧
-      SrvPart.drain v2 now (pa.bytes ++ pb.bytes) = (v3, .ok []) ∧
-    ∀ c4 r3, Cli.requestStream c3 now (.play key) = (c4, .ok r3) →
+      CliPart.drain c2 (clk 5) p2.bytes = (c3, .ok [.out pa, .ev .connectionAccepted, .out pb]) ∧
+      SrvPart.drain v2 (clk 6) (pa.bytes ++ pb.bytes) = (v3, .ok []) ∧
+    ∀ c4 r3, Cli.requestStream c3 (clk 7) (.play key) = (c4, .ok r3) →
     ∃ p3 v4 p4 c5 p5 p6 v5, r3 = .out p3 ∧
-      SrvPart.drain v3 now p3.bytes = (v4, .ok [.out p4]) ∧
-      CliPart.drain c4 now p4.bytes = (c5, .ok [.out p5, .out p6]) ∧
-      SrvPart.drain v4 now (p5.bytes ++ p6.bytes) =
+      SrvPart.drain v3 (clk 8) p3.bytes = (v4, .ok [.out p4]) ∧
+      CliPart.drain c4 (clk 9) p4.bytes = (c5, .ok [.out p5, .out p6]) ∧
+      SrvPart.drain v4 (clk 10) (p5.bytes ++ p6.bytes) =
         (v5, .ok [.ev (.playRequested 1 (trimApp app) key .liveOrRecorded none false 1)]) ∧
-    ∀ v6 rs6, Srv.acceptRequest v5 now 1 = (v6, .ok rs6) →
-    ∃ c6, CliPart.drain c5 now (bytesS rs6) =
+    ∀ v6 rs6, Srv.acceptRequest v5 (clk 11) 1 = (v6, .ok rs6) →
+    ∃ c6, CliPart.drain c5 (clk 12) (bytesS rs6) =
         (c6, .ok [.ev (.unhandleableOnStatus (str "NetStream.Play.Reset")), .ev .playbackAccepted]) ∧
       PlayReady c6 v6 1 (trimApp app) key := by
   obtain ⟨c1, b4, hd0, hin1, hc1, hv0⟩ := banner_phase ccfg hnew hsw.win hsw.bw
@@ -694,16 +695,16 @@ theorem play_items {c : Cli.State} {v v' : Srv.State} {sid : Nat} {app key : Byt
   · rw [hf]; exact hr.vstream
 
 /-- **stop on a playing pair**: the server raises exactly "play finished" and forgets the stream -/
-theorem stop_playback {c c1 : Cli.State} {v : Srv.State} {sid : Nat} {app key : Bytes} {now : Nat} {rs : List Cli.Res}
-    (hr : PlayReady c v sid app key) (h : Cli.stop c now true = (c1, .ok rs)) :
-    ∃ p v1, rs = [.out p] ∧ SrvPart.drain v now p.bytes = (v1, .ok [.ev (.playFinished app key)]) ∧
+theorem stop_playback {c c1 : Cli.State} {v : Srv.State} {sid : Nat} {app key : Bytes} {n1 n2 : Nat} {rs : List Cli.Res}
+    (hr : PlayReady c v sid app key) (h : Cli.stop c n1 true = (c1, .ok rs)) :
+    ∃ p v1, rs = [.out p] ∧ SrvPart.drain v n2 p.bytes = (v1, .ok [.ev (.playFinished app key)]) ∧
       InStep c1 v1 ∧ c1.st = .connected ∧ c1.activeStream = none ∧ mapGet sid v1.streams = none := by
   obtain ⟨p, body, hrs, hp, he, hc1⟩ := stop_ok (play := true) (by simp [hr.cst]) hr.cact hr.sid32 h
-  have hstep : SrvSteps.steps v now (msgs [(p, ({ ts := epoch now, typ := 20, msid := sid, data := body } : Msg))]) = _ :=
-    srv_steps_one v _ now _ _ (by
+  have hstep : SrvSteps.steps v n2 (msgs [(p, ({ ts := epoch n1, typ := 20, msid := sid, data := body } : Msg))]) = _ :=
+    srv_steps_one v _ n2 _ _ (by
       rw [srv_stepMsg_of (deleteStreamCmd_wf sid hr.sid32) hp]
-      exact srv_deleteStream v now _ sid app _ hr.sid32 hr.vconn hr.vapp hr.vstream)
-  obtain ⟨core1, hd, hl⟩ := srv_recv now hr.inStep.cs he hstep
+      exact srv_deleteStream v n2 _ sid app _ hr.sid32 hr.vconn hr.vapp hr.vstream)
+  obtain ⟨core1, hd, hl⟩ := srv_recv n2 hr.inStep.cs he hstep
   rw [wire_one] at hd
   refine ⟨p, _, hrs, hd, ⟨hl, ?_⟩, by rw [hc1], by rw [hc1], ?_⟩
   · rw [hc1]; exact hr.inStep.sc
